@@ -28,8 +28,9 @@ pub const GAP_MIN: f64 = 1e-3;
 pub const FORMULA_EPS: f64 = 1024.0 * f64::EPSILON;
 /// Number of competing random orthonormal k-frames.
 pub const FRAMES: usize = 50;
-/// Largest relative eigen-residual (in units of λ₁) of the returned pairs for which the spectral obligations
-/// are evaluated at tolerance TAU; above it the result is reported as a solver failure instead.
+/// A direction u counts as an eigenvector "on its own scale" when |C u − q u| <= RESID_MAX · q, q = uᵀC u; also the
+/// relative tolerance with which a sigma_j²/(n−1) is recognised as an eigenvalue of C (classification of the solver
+/// breakdown only, see check_pca).
 pub const RESID_MAX: f64 = TAU;
 /// Requested eigenvalues below DYN·λ₁ put a case into the "wide dynamic range" class (see check_pca).
 pub const DYN: f64 = 1e-4;
@@ -142,10 +143,9 @@ pub fn check_pca(c: &Case, obs: &mut Obs) {
     // *absolute* residual tolerance (1e-10 on the eigenvalues of Xc^T Xc); linfa-linalg itself carries a
     // commented-out guard "dimension < 5·block size: please use a different approach". Whenever 5k > p the solver
     // is observed to break down in several ways (see the known findings of C18): Cholesky failure of the
-    // exhausted basis when k does not divide p (the unconverged first iterate is returned), spurious Ritz values
-    // of size ~1e-6·λ₁ replacing small requested eigenvalues, NaN panic when it keeps iterating on round-off
-    // (k = p, large data scale). Failures of the *solver* inside 5k > p therefore get their own two signatures;
-    // everything else — and every case in which the solver did deliver eigenvectors — is judged in full.
+    // exhausted basis when k does not divide p (an unconverged iterate is returned), spurious Ritz values of
+    // size ~1e-6·λ₁ replacing small requested eigenvalues, mis-paired values and vectors. Those faces get their
+    // own signatures below, and only inside 5k > p; everywhere else every obligation fails under its own name.
     let small_problem = 5 * k > p;
     obs.class_if(small_problem, "5k>p");
     obs.class_if(!small_problem, "5k<=p");
@@ -206,8 +206,8 @@ pub fn check_pca(c: &Case, obs: &mut Obs) {
     }) {
         return;
     }
-    // The solver drops singular values below ~1e-5·σ₁ (rank cut-off, pinned by
-    // test_explained_variance_cutoff); the generator keeps σ_p/σ_1 ≥ ~1e-4, so all k are expected.
+    // The solver drops singular values below ~1.5e-5·σ₁ (rank cut-off, pinned by test_explained_variance_cutoff);
+    // inside the design domain (σ_k/σ_1 >= 1e-3) all k components are expected.
     if kk < k {
         if in_range {
             obs.fail(
@@ -254,6 +254,7 @@ pub fn check_pca(c: &Case, obs: &mut Obs) {
     //                             Ritz pairs (not Ritz-like, or sigma_j^2/(n-1) is not the variance along u_j)
     //   eigenpairs-misassigned  : all u_j are eigenvectors and all sigma_j^2/(n-1) are eigenvalues of C, but sigma_j
     //                             belongs to another component, or they are not the leading pairs
+    //   unnormalised-component  : right directions, but a row of the embedding has the wrong norm
     //   not-leading-eigenpairs  : a λ₁-scaled optimality obligation (singular value, eigenspace, retained variance,
     //                             random frames) fails — see below
     let mut resid_top = 0.0f64; // relative to λ₁ (reported only)
@@ -301,6 +302,24 @@ pub fn check_pca(c: &Case, obs: &mut Obs) {
             c.whiten, l, qs, lam
         )
     };
+    // fourth face: a correct eigen-direction returned with a norm far from 1 (observed: 3e-12), i.e. V V^T != I
+    // (un-whitened) resp. a whitened row whose norm is not sqrt(n-1)/sigma_j
+    let row_scale: Vec<f64> = (0..kk).map(|j| if c.whiten { norms[j] * sigma[j] / nm1.sqrt() } else { norms[j] }).collect();
+    // (squared, as in the V V^T = I obligation)
+    let unnormalised = ritz_like && row_scale.iter().any(|v| (v * v - 1.0).abs() > TAU);
+    if in_range && small_problem && !garbage && !misassigned && unnormalised {
+        spectral = false;
+        obs.class("solver_failed");
+        obs.class("solver_failed:unnormalised_component");
+        obs.fail(
+            "pca:solver-breakdown:unnormalised-component",
+            describe(&format!(
+                "the components point along eigenvectors of the sample covariance but a row does not have the norm it must have (row norms relative to {} = {:?})",
+                if c.whiten { "sqrt(n-1)/sigma_j" } else { "1" },
+                row_scale
+            )),
+        );
+    }
     if in_range && small_problem && (garbage || misassigned) {
         spectral = false;
         obs.class("solver_failed");
@@ -559,7 +578,8 @@ pub fn check_pca(c: &Case, obs: &mut Obs) {
         }
     }
     let dir_max2: f64 = comps.iter().flatten().fold(0.0f64, |a, b| a.max(b * b)).max(1.0);
-    let tol_proj = TAU * xc_max + FORMULA_EPS * (x_max + xc_max * dir_max2 * (p * kk) as f64);
+    // V V^T = I is only asserted within TAU, so V^T V may differ from the exact projector by 2·TAU per component
+    let tol_proj = 2.0 * TAU * xc_max * (p as f64).sqrt() + FORMULA_EPS * (x_max + xc_max * dir_max2 * (p * kk) as f64);
     let mut bad_proj: Option<(usize, usize, f64, f64)> = None;
     let mut bad_naive = false;
     let mut bad_ident: Option<(usize, usize, f64)> = None;
@@ -645,28 +665,30 @@ pub fn check_errors(c: &ErrCase, obs: &mut Obs) {
 pub fn property() -> Property {
     Property {
         id: "C18",
-        rule: "cases = (n 5..=80, p 1..=8, n > p, embedding size 1..=p with k=1 and k=p over-weighted, whitening on/off, shape in \
-               {isotropic, rotated anisotropic with population singular ratio <= 10^2.7, low-rank signal + noise 2e-3..1e-1 of the top signal singular value, \
-               columns scaled by 10^(-2.5..0)}, column offsets {none, |o|<=10, |o|<=1000}, global scale 10^{0,1,2}); the record matrix is derived \
-               deterministically from generated gaussians. Reference = two-pass covariance + own Jacobi eigen-decomposition. Non-trivial = (k < p with spectral gap \
-               at k > 1e-3*lambda_1) or k = 1 or whitening on; distinct = distinct canonical JSON of the case. The error class (empty data, k = 0, k > p, with valid \
-               neighbours) is enumerated.",
+        rule: "cases = (p 1..=8 [4 of 5] or 10..=16 [1 of 5: the only place where an embedding size >= 2 has 5k <= p], n (max(p+1,5))..=80, embedding size 1..=p \
+               with k=1 and k=p over-weighted (p>=10: also 2..=p/5), whitening on/off, shape in {isotropic, rotated anisotropic with population singular ratio \
+               <= 10^2.7, low-rank signal + noise 2e-3..1e-1 of the top signal singular value, columns scaled by 10^(-2.5..0)}, column offsets {none, |o|<=10, \
+               |o|<=1000}, global scale 10^{0,1,2}); the record matrix is derived deterministically from generated gaussians. Reference = two-pass covariance + \
+               own Jacobi eigen-decomposition. Non-trivial = (k < p with spectral gap at k > 1e-3*lambda_1) or k = 1 or whitening on; distinct = distinct \
+               canonical JSON of the case. The error class (empty data, k = 0, k > p, with valid neighbours) is enumerated.",
         assumptions: vec![
-            format!("solver-derived quantities are compared with TAU = {TAU:e}: variances and score covariances +- TAU*lambda_1, V V^T and the whitened covariance +- TAU (LOBPCG stops at 1e-5)"),
+            format!("lambda_1-scaled obligations (sigma_j^2/(n-1) = lambda_j, retained variance >= top-k sum and >= {FRAMES} random orthonormal frames, cov of un-whitened scores diagonal, var(score_j) = explained variance) use +- TAU*lambda_1 with TAU = {TAU:e}; dimensionless ones (V V^T = I, whitened covariance = I) use +- TAU (LOBPCG stops at 1e-5)"),
             format!("span(V) vs leading eigenspace: Frobenius distance of the projectors <= 5*TAU*lambda_1/gap, asserted only when gap > {GAP_MIN:e}*lambda_1 (k = p: <= TAU*p)"),
-            format!("formula re-computations (scores, mean, inverse transform, explained variance vs sigma^2/(n-1)) use |a-b| <= {FORMULA_EPS:e} * sum of term magnitudes; inverse transform additionally +- TAU*max|x - mean|"),
+            format!("formula re-computations (scores, mean, inverse transform, explained variance vs sigma^2/(n-1)) use |a-b| <= {FORMULA_EPS:e} * sum of term magnitudes; inverse transform additionally +- 2*sqrt(p)*TAU*max|x - mean|"),
             "with whitening the rows of components() are rescaled by design; orthonormality, eigenspace and optimality are asserted for their directions (rows / norm)".into(),
             "explained-variance ratios only have to be finite, >= 0, not all zero and proportional to sigma_j^2 (any positive common factor)".into(),
-            "inverse_transform(transform(X)) is required to be the orthogonal projection about the mean for whitened models too (statement quantifies over whitening on/off; DESIGN restricted it to un-whitened models)".into(),
-            format!("design domain singular ratio <= 1e3: when lambda_k < {RANGE_MIN:e}*lambda_1 (sampling fluctuation, n close to p) only the solver-independent obligations are judged (class beyond_singular_ratio_1e3)"),
-            format!("PCA exposes no convergence flag, so no run is skipped as unconverged: a result whose components are not eigenvectors of the reference covariance (residual > {RESID_MAX:e} relative to the Rayleigh quotient) is a failure; inside 5k > p (LOBPCG block not small against the dimension) it carries the pca:solver-breakdown:* signatures (known findings), elsewhere pca:not-converged"),
+            "inverse_transform(transform(X)) is required to be the orthogonal projection about the mean for whitened models too (the statement quantifies over whitening on/off; DESIGN restricted it to un-whitened models)".into(),
+            format!("design domain singular ratio <= 1e3: when lambda_k < {RANGE_MIN:e}*lambda_1 (sampling fluctuation, n close to p) only the solver-independent obligations are judged (class beyond_singular_ratio_1e3); data with (n-1)*lambda_1 < {SCALE_MIN:e} (reachable only by shrinking) is not judged"),
+            "PCA exposes no convergence flag, so no run is skipped as unconverged: every obligation is evaluated on whatever fit returns".into(),
+            format!("inside 5k > p (LOBPCG block not small against the dimension) the observed faces of the solver breakdown carry their own signatures pca:solver-breakdown:* (known findings), each recognised from reference quantities: not-leading-eigenpairs (a lambda_1-scaled optimality obligation fails), inconsistent-components (a component is no eigenvector within {RESID_MAX:e} of its own variance and the answer is no set of Ritz pairs), eigenpairs-misassigned (eigenvectors and eigenvalues, wrongly paired / not leading), unnormalised-component; for such a case the remaining solver-dependent obligations are consequences and are not evaluated. Outside 5k > p (k = 1 with p >= 5, k >= 2 with p >= 10) every obligation fails under its own name"),
+            "a panic of fit with linfa-linalg's message `NaN values in array` (eigh.rs) is signature pca:solver-breakdown:nan-panic, any other panic is panic:fit".into(),
             "exactly k components are expected inside the design domain (the solver's rank cut-off pinned by test_explained_variance_cutoff is far below it)".into(),
             "trusted base: ndarray, vengine::num::{covariance, jacobi_eigh, col_means}".into(),
         ],
         subs: vec![
-            prop_sub("pca", 20_000, 400_000, case_strategy, check_pca)
+            prop_sub("pca", 60_000, 1_200_000, case_strategy, check_pca)
                 .chunks(16)
-                .require(&["judged_spectral", "judged_spectral_k<p_clear_gap", "whiten", "k=1", "k=p"]),
+                .require(&["judged_spectral", "judged_spectral_k<p_clear_gap", "judged_spectral_5k<=p", "whiten", "k=1", "k=p", "k>=2_and_5k<=p"]),
             enum_sub("errors", |t: Tier| err_cases(t), check_errors).chunks(2),
         ],
     }
